@@ -9,7 +9,9 @@ BOUNDED = [{"name": "C06 short histories of public mutators, snapshot equality o
            {"name": "C06 a sort rejected for a cycle (also confined to a nested graph) leaves every graph as it was (bounded)",
             "script": "bounded_sort.py", "args": []},
            {"name": "C06 rejected rename_values (single graph and across graphs) changes nothing (bounded)",
-            "script": "bounded_names.py", "args": []}]
+            "script": "bounded_names.py", "args": []},
+           {"name": "C06 a rejected Node.resize_outputs / resize_inputs leaves the node, its outputs and their users as they were (bounded, directed)",
+            "script": "bounded_resize.py", "args": []}]
 
 
 def build(eng, tier):
